@@ -322,6 +322,8 @@ fn run_completeness_after_punctures(cx: &mut CaseCx, case: &Value) {
       let _ = s.puncture(t);
     }
     cx.nontrivial(fnv(&order));
+    // the key a client fetches AFTER the punctures still serves every live tag
+    let pk_after = s.get_public_key();
     for &t in &probes {
       if order.contains(&t) {
         continue;
@@ -329,6 +331,10 @@ fn run_completeness_after_punctures(cx: &mut CaseCx, case: &Value) {
       cx.eval();
       match guard(|| s.eval(&blinded, t, true)) {
         Ok(Ok(ev)) => {
+          if guard(|| pp::Client::verify(&pk_after, &blinded, &ev, t)) != Ok(true) {
+            cx.viol("C13/complete/honest-rejected/key-fetched-after-punctures", format!("after puncturing {:?} the honest verifiable evaluation for the live tag {} is rejected under the public key the server hands out NOW (it verifies under the key published at creation: {})", order, t, guard(|| pp::Client::verify(&pk, &blinded, &ev, t)) == Ok(true)), json!({"punctured_in_order": order, "tag": t}));
+            return;
+          }
           if guard(|| pp::Client::verify(&pk, &blinded, &ev, t)) != Ok(true) {
             cx.viol("C13/complete/honest-rejected/after-punctures", format!("after puncturing {:?} the honest verifiable evaluation for the live tag {} is rejected under the public key published at creation", order, t), json!({"punctured_in_order": order, "tag": t}));
             return;
@@ -461,6 +467,31 @@ fn run_soundness(cx: &mut CaseCx, case: &Value) {
     ("challenge c", repl(&c_bytes, vec![("+ l (second encoding of the same residue)", sc_plus_order(&c_bytes, 1)), ("+ 2l", sc_plus_order(&c_bytes, 2)), ("+1", sc_plus1(&c_bytes)), ("negated", sc_neg(&c_bytes)), ("zero", Some([0u8; 32])), ("of another proof", Some(h_other_input.proof[..32].try_into().unwrap())), ("response s", Some(s_bytes))])),
     ("response s", repl(&s_bytes, vec![("+ l (second encoding of the same residue)", sc_plus_order(&s_bytes, 1)), ("+ 2l", sc_plus_order(&s_bytes, 2)), ("+1", sc_plus1(&s_bytes)), ("negated", sc_neg(&s_bytes)), ("zero", Some([0u8; 32])), ("of another proof", Some(h_other_input.proof[32..64].try_into().unwrap())), ("challenge c", Some(c_bytes))])),
   ];
+  // comparators that COMPRESS before comparing (an XOR fold, a byte sum, a prefix): the challenge altered in two
+  // bytes so that the XOR of all byte differences, or their sum, is zero
+  let mut comps = comps;
+  {
+    let mut folded: Vec<(String, [u8; 32])> = vec![];
+    for i in 0..31usize {
+      for j in [i + 1, 31 - (i % 16)] {
+        if j == i || j > 31 {
+          continue;
+        }
+        for bit in [0x01u8, 0x08] {
+          let mut b = c_bytes;
+          b[i] ^= bit;
+          b[j] ^= bit;
+          folded.push((format!("the same bit {:#04x} flipped in bytes {} and {} (XOR of the differences is zero)", bit, i, j), b));
+        }
+        let mut b = c_bytes;
+        b[i] = b[i].wrapping_add(1);
+        b[j] = b[j].wrapping_sub(1);
+        folded.push((format!("byte {} + 1 and byte {} - 1 (sum of the differences is zero)", i, j), b));
+      }
+    }
+    folded.retain(|(_, b)| *b != c_bytes && b[31] & 0xf0 == c_bytes[31] & 0xf0);
+    comps.push(("challenge c", folded));
+  }
   for (comp, reps) in comps {
     for (how, val) in reps {
       cx.eval();
